@@ -81,7 +81,7 @@ def parse_timestamp(s):
         return UNSPEC  # leap second
     sec = instant(y, mo, d, H, M, S, offmin)
     if not SEC_MIN <= sec <= SEC_MAX:
-        return UNSPEC  # the instant leaves years 0001..9999 only through its offset
+        return ERR  # the instant leaves years 0001..9999 through its offset: the result does not fit the target type
     us = 0
     if frac:
         digits = frac[1:]
@@ -143,8 +143,10 @@ def selftest():
               "10000-01-01T00:00:00Z", "2020-00-10T00:00:00Z", "2020-01-00T00:00:00Z", "2020-01-01T00:00:00+24:00"):
         assert parse_timestamp(s) == ERR, s
     for s in ("1-01-01T00:00:00Z", "2000-02-29", "2000-02-29T00:00:00", "20000229T000000Z", "2000-02-29 00:00:00Z", "2000-02-29t00:00:00z",
-              "2000-02-29T00:00:00+0530", " 2000-02-29T00:00:00Z", "2016-12-31T23:59:60Z", "0001-01-01T00:00:00+05:30", "9999-12-31T23:59:59-00:01"):
+              "2000-02-29T00:00:00+0530", " 2000-02-29T00:00:00Z", "2016-12-31T23:59:60Z"):
         assert parse_timestamp(s) == UNSPEC, s
+    for s in ("0001-01-01T00:00:00+05:30", "9999-12-31T23:59:59-00:01"):
+        assert parse_timestamp(s) == ERR, s
     assert fmt(1, 1, 1, 0, 0, 0) == "0001-01-01T00:00:00Z" and fmt(2000, 2, 29, 1, 2, 3, -330) == "2000-02-29T01:02:03-05:30"
     assert fmt(999, 12, 31, 23, 59, 59, 840) == "0999-12-31T23:59:59+14:00"
     assert parse_duration("0s") == 0 and parse_duration("-1s") == -1 and parse_duration("1000000s") == 10 ** 6
